@@ -273,7 +273,7 @@ inline int engineMain(int argc, char** argv, Engine& eng) {
             if (r.inconclusive) { nincon++; std::printf("I idx=%ld seed=%llu | %s\n", i, (unsigned long long)seed, sanitize(r.detail).c_str()); }
             if (r.violation) { nviol++; printViolation(i, seed, r, savePlan(plan, r.vclass, ctx().replayDir)); }
             if (perrun) std::printf("r %ld %016llx %d %016llx\n", i, (unsigned long long)r.hash, r.nontrivial ? 1 : 0, (unsigned long long)r.key);
-            if ((done & 63) == 63) {
+            {   // the batch's wall-clock budget (outside every simulated run); cheap enough to read after each run
                 struct timespec t1; clock_gettime(CLOCK_MONOTONIC, &t1);
                 if ((t1.tv_sec - t0.tv_sec) + 1e-9 * (t1.tv_nsec - t0.tv_nsec) > tlimit) { ++done; break; }
             }
